@@ -215,9 +215,9 @@ class Negotiated:
             # therefore we can not collide due to the way we generate the configuration
 
             for capa in sent_ms_capa:
-                # no need to check that the capability exists, we generated it
-                # checked it is what we sent and only send MULTIPROTOCOL
-                if sent_capa[capa] != recv_capa[capa]:
+                # we generated ours (and only send MULTIPROTOCOL); the peer may name a capability as session
+                # identifier which its OPEN does not carry: that is a mismatch, not a KeyError
+                if sent_capa.get(capa) != recv_capa.get(capa):
                     self.multisession = (
                         2,
                         8,
